@@ -143,7 +143,8 @@ PROPS = {
         "coq": ["Props/C08.v"],
         "level": "proof",
         "harness": ["gwrun"],
-        "stages": [("gw", stage_gw, {"profiles": [("basic", 300, 2500), ("churn", 400, 3000), ("access", 250, 2000), ("scacc", 250, 2000), ("accrefs", 200, 1500), ("reset", 200, 1500), ("sclimit", 4, 20), ("gets", 0, 1500), ("wild", 0, 1500)]})],
+        "stages": [("core", stage_core, {"n_quick": 1500, "n_thorough": 20000}),
+                   ("gw", stage_gw, {"profiles": [("basic", 300, 2500), ("churn", 400, 3000), ("access", 250, 2000), ("scacc", 250, 2000), ("accrefs", 200, 1500), ("reset", 200, 1500), ("sclimit", 4, 20), ("gets", 0, 1500), ("wild", 0, 1500)]})],
         "rule": "as C01 with unsubscribe counts (absent, 0, negative, 1..3) and failing gets; ledger driven only by observable successes predicts every "
                 "unsubscribe outcome and is compared with the gateway's own direct counts (introspection) at every quiescent point",
         "assumptions": [],
@@ -216,7 +217,8 @@ PROPS = {
         "coq": ["Props/C11.v"],
         "level": "proof",
         "harness": ["gwrun"],
-        "stages": [("gw", stage_gw, {"profiles": [("churn", 500, 6000), ("accchurn", 300, 4000), ("scdisc", 500, 4000), ("scdisct", 400, 3000), ("scthr1", 200, 1500), ("http", 300, 2500), ("wild", 0, 1500)],
+        "stages": [("core", stage_core, {"n_quick": 1500, "n_thorough": 20000}),
+                   ("gw", stage_gw, {"profiles": [("churn", 500, 6000), ("accchurn", 300, 4000), ("scdisc", 500, 4000), ("scdisct", 400, 3000), ("scthr1", 200, 1500), ("http", 300, 2500), ("wild", 0, 1500)],
                                      "monitor_props": ("C11", "C09", "C19")})],
         "rule": "disconnect injected at random steps with requests, loads, access checks and queued events outstanding, late answers delivered afterwards; "
                 "monitor at the next quiescent point: no subscription, no conn-event subscription left for the connection, use counts equal remaining "
